@@ -351,7 +351,8 @@ def check(ctx):
             o.count()
             if role[0] == 'method' and role[1] == 'append' and s.cls is c:
                 napp += 1
-                if [ast.unparse(a) for a in role[2].args] != ['self._part']:
+                from ..norm import ctext as _ct, single_defs as _sd
+                if [_ct(a, _sd(s.func)) for a in role[2].args] != ['self._part']:
                     o.fail(P, s.ctx, s.stmt, 'the sink does not collect the part it has just received', file=s.mod.path, line=s.line)
                 else:
                     o.witness('append')
